@@ -1,27 +1,42 @@
 (* Driver entry for the component compile model (C01, C09, C10, C14, C18): decoders of the
    program AST and encoders of the emitted PIL lines. *)
 From Coq Require Import List String Ascii Arith Bool.
-From PC Require Import Base.Sexp Comp.Syntax Comp.Struct Comp.Wild Comp.Compile Comp.WfCheck Comp.WfPil.
+From Coq Require Import ZArith.
+From PC Require Import Base.Sexp Comp.Syntax Comp.Struct Comp.Wild Comp.Compile Comp.WfCheck Comp.WfPil Subst.VarSubst Run.RC13.
 Import ListNotations.
 Local Open Scope string_scope.
 
 Definition d_char (s : sexp) : option ascii :=
   match s with At (String c EmptyString) => Some c | _ => None end.
 
-Definition d_part (s : sexp) : option part :=
+(* numbers of a template are literals or ("e" expression) evaluated under the parameter
+   environment: decoding a template under an environment IS its instantiation *)
+Definition dNe (e : env) (s : sexp) : option nat :=
   match s with
-  | Li [At "?"; c] => option_map (fun c => (MWild, c)) (d_char c)
-  | Li [n; c] => match dN n, d_char c with Some n, Some c => Some (MNum n, c) | _, _ => None end
-  | _ => None
+  | Li [At "e"; x] => match d_expr 64 x with
+                      | Some ex => match eval e ex with
+                                   | Some z => if (z <? 0)%Z then None else Some (Z.to_nat z)
+                                   | None => None end
+                      | None => None end
+  | _ => dN s
   end.
 
-Definition d_item (s : sexp) : option item :=
+Definition d_part_e (e : env) (s : sexp) : option part :=
   match s with
-  | Li [At "nuc"; ps] => option_map INuc (dL d_part ps)
+  | Li [At "?"; c] => option_map (fun c => (MWild, c)) (d_char c)
+  | Li [n; c] => match dNe e n, d_char c with Some n, Some c => Some (MNum n, c) | _, _ => None end
+  | _ => None
+  end.
+Definition d_part := d_part_e [].
+
+Definition d_item_e (e : env) (s : sexp) : option item :=
+  match s with
+  | Li [At "nuc"; ps] => option_map INuc (dL (d_part_e e) ps)
   | Li [At "ref"; At n; b] => option_map (IRef n) (dB b)
   | Li [At "dom"; At n; b] => option_map (IDom n) (dB b)
   | _ => None
   end.
+Definition d_item := d_item_e [].
 
 Definition sym_of_char (c : ascii) : option sym :=
   match c with
@@ -35,15 +50,15 @@ Definition s_syms (l : list sym) : sexp := At (unchars (map char_of_sym l)).
 Definition d_sym1 (s : sexp) : option sym :=
   match d_char s with Some c => sym_of_char c | None => None end.
 
-Fixpoint d_hu (s : sexp) : option huterm :=
+Fixpoint d_hu_e (e : env) (s : sexp) : option huterm :=
   match s with
   | Li [At "+"] => Some HPlus
-  | Li [At "U"; n] => option_map HU (dN n)
+  | Li [At "U"; n] => option_map HU (dNe e n)
   | Li [At "H"; n; Li body] =>
-      match dN n, (fix go (l : list sexp) : option (list huterm) :=
+      match dNe e n, (fix go (l : list sexp) : option (list huterm) :=
                      match l with
                      | [] => Some []
-                     | x :: r => match d_hu x, go r with Some y, Some ys => Some (y :: ys) | _, _ => None end
+                     | x :: r => match d_hu_e e x, go r with Some y, Some ys => Some (y :: ys) | _, _ => None end
                      end) body with
       | Some n, Some b => Some (HH n b)
       | _, _ => None
@@ -51,22 +66,24 @@ Fixpoint d_hu (s : sexp) : option huterm :=
   | _ => None
   end.
 
-Definition d_snot (s : sexp) : option snot :=
+Definition d_hu := d_hu_e [].
+Definition d_snot_e (e : env) (s : sexp) : option snot :=
   match s with
-  | Li [At "hu"; t] => option_map NHU (dL d_hu t)
-  | Li [At "ext"; l] => option_map NExt (dL (dP dN d_sym1) l)
+  | Li [At "hu"; t] => option_map NHU (dL (d_hu_e e) t)
+  | Li [At "ext"; l] => option_map NExt (dL (dP (dNe e) d_sym1) l)
   | _ => None
   end.
+Definition d_snot := d_snot_e [].
 
-Definition d_stmt (s : sexp) : option stmt :=
+Definition d_stmt_e (e : env) (s : sexp) : option stmt :=
   match s with
   | Li [At "seq"; At name; items; len] =>
-      match dL d_item items, dO dN len with Some i, Some l => Some (SSeq name i l) | _, _ => None end
+      match dL (d_item_e e) items, dO (dNe e) len with Some i, Some l => Some (SSeq name i l) | _, _ => None end
   | Li [At "strand"; d; At name; items; len] =>
-      match dB d, dL d_item items, dO dN len with
+      match dB d, dL (d_item_e e) items, dO (dNe e) len with
       | Some d, Some i, Some l => Some (SStrand d name i l) | _, _, _ => None end
   | Li [At "struct"; opt; At name; strands; dom; sn] =>
-      match dN opt, dL dS strands, dB dom, d_snot sn with
+      match dN opt, dL dS strands, dB dom, d_snot_e e sn with
       | Some o, Some ss, Some d, Some n => Some (SStruct o name ss d n) | _, _, _, _ => None end
   | Li [At "kin"; lo; hi; ins; outs] =>
       match dO dS lo, dO dS hi, dL dS ins, dL dS outs with
@@ -74,6 +91,7 @@ Definition d_stmt (s : sexp) : option stmt :=
   | _ => None
   end.
 
+Definition d_stmt := d_stmt_e [].
 Definition d_port (s : sexp) : option port :=
   match s with
   | Li [At n; b; sn] => match dB b, dO dS sn with Some b, Some sn => Some ((n, b), sn) | _, _ => None end
